@@ -66,7 +66,7 @@ S3 == /\ phase = 2 /\ Scope = "shape"
       /\ style' = "print" /\ phase' = 3 /\ UNCHANGED <<form, ea, ok>>
 \* ---- prec scope: every ordered pair of operators in both groupings (and with the unary forms on either operand), over leaf
 \* triples that make the two groupings differ in value or in failing: precedence x associativity of every operator token
-Trip == { <<I(1), I(2), I(3)>>, <<I(2), I(2), I(1)>>, <<I(7), I(0), I(2)>>, <<Lit(BoolV(TRUE)), I(2), I(2)>>, <<S(<<97>>), S(<<98>>), I(2)>>, <<Id("x"), I(1), F(1, 2)>> }
+Trip == { <<I(0), I(2), I(7)>>, <<I(1), I(2), I(3)>>, <<I(2), I(2), I(1)>>, <<I(7), I(0), I(2)>>, <<Lit(BoolV(TRUE)), I(2), I(2)>>, <<S(<<97>>), S(<<98>>), I(2)>>, <<Id("x"), I(1), F(1, 2)>> }
 PrecForms == { <<o1, o2, g>> : o1 \in BinOps, o2 \in BinOps, g \in {"L", "R"} } \cup { <<o, u, g>> : o \in BinOps, u \in {"u-", "unot", "u+"}, g \in {"OUT", "INL", "INR"} }
 MkP(pf, t) == LET a == t[1] b == t[2] c == t[3] IN
               CASE pf[3] = "L" -> Bin(pf[1], Bin(pf[2], a, b), c)
@@ -74,6 +74,12 @@ MkP(pf, t) == LET a == t[1] b == t[2] c == t[3] IN
                 [] pf[3] = "OUT" -> Un(UnOf(pf[2]), Bin(pf[1], a, b))
                 [] pf[3] = "INL" -> Bin(pf[1], Un(UnOf(pf[2]), a), b)
                 [] pf[3] = "INR" -> Bin(pf[1], a, Un(UnOf(pf[2]), b))
+\* ---- logic scope: and / or / not nested two deep over every combination of truthy and falsy leaves (short-circuit jumps that
+\* land on short-circuit jumps, taken and not taken)
+LogicTrip == { <<a, b, c>> : a \in {I(0), I(1)}, b \in {I(0), I(2)}, c \in {I(0), I(7)} }
+LogicForms == { <<o1, o2, g>> : o1 \in {"and", "or"}, o2 \in {"and", "or"}, g \in {"L", "R"} } \cup { <<o, "unot", g>> : o \in {"and", "or"}, g \in {"OUT", "INL", "INR"} }
+L1x == /\ phase = 0 /\ Scope = "logic" /\ \E pf \in LogicForms, t \in LogicTrip : ea' = MkP(pf, t) /\ form' = pf[1]
+       /\ eb' = NoX /\ style' = "print" /\ phase' = 3 /\ UNCHANGED ok
 P1 == phase = 0 /\ Scope = "prec" /\ \E o \in BinOps : form' = o /\ phase' = 1 /\ UNCHANGED <<ea, eb, style, ok>>
 P2 == /\ phase = 1 /\ Scope = "prec"
       /\ \E pf \in { x \in PrecForms : x[1] = form }, t \in Trip : ea' = MkP(pf, t)
@@ -94,7 +100,7 @@ RGrow == /\ phase = 10 /\ Scope = "sim" /\ ok
             \/ \E o \in BinOps, l \in LeavesR : eb' \in { Bin(o, eb, l), Bin(o, l, eb) } /\ ea' = ea
          /\ ok' = (Good(ea') /\ Good(eb'))
          /\ UNCHANGED <<phase, form, style>>
-Next == T1 \/ T2 \/ T3 \/ P1 \/ P2 \/ S1 \/ S2 \/ S3 \/ R0 \/ RGrow
+Next == T1 \/ T2 \/ T3 \/ P1 \/ P2 \/ S1 \/ S2 \/ S3 \/ R0 \/ RGrow \/ L1x
 Spec == Init /\ [][Next]_vars
 
 \* ---- the exported case
